@@ -592,3 +592,220 @@ def do_v2_search(req):
 
 
 HANDLERS.update({'v2_case': do_v2_case, 'v2_search': do_v2_search})
+
+
+# ------------------------------------------------------------------------------ C03 bounded stand-in / C06 sweep
+def _rec64(i, tid=5, code=0x40c0000, q=0):
+    import struct
+    return struct.pack('<Q32sQIIQ', 1000 + i, struct.pack('<QQQQ', i, i + 1, i + 2, i + 3), tid, code | q, 0, 0)
+
+
+def _raw_log(i, with_proc=True):
+    d = {'cm': i % 3, 't': 'Log', 's': 'x', 'tid': 40 + i, 'ns': 1, 'mct': 2, 'b': b'b' * 16, 'piu': b'p' * 16,
+         'ud': {'sec': 10 + i, 'usec': 5}, 'utz': {'mw': 0, 'dt': 0}}
+    if with_proc:
+        d.update({'p': (i + 1) % 3, 'pid': 900 + i})
+    return d
+
+
+def _v3_expected(threads, chunks, blocks):
+    import plistlib
+    from pykdebugparser.kevent import from_kd_buf
+    from spec import container as S
+    events = [from_kd_buf(r) for c in chunks for r in c]
+    tp, pn = S.expected_tables(threads)
+    meta = {'trace_codes': '', 'kernel_extensions': [], 'dyld_binaries': None, 'dyld_first': None, 'images': {}, 'processes': {}}
+    logs, strings = [], {}
+    for kind, payload in blocks:
+        if kind == 'trace_codes':
+            meta['trace_codes'] += payload.decode()
+        elif kind == 'kernel_extensions':
+            meta['kernel_extensions'] += plistlib.loads(payload)['Binaries']
+        elif kind == 'dyld_modules':
+            d = plistlib.loads(payload)
+            if meta['dyld_first'] is None:
+                meta['dyld_first'] = {k: v for k, v in d.items() if k != 'Binaries'}
+                meta['dyld_binaries'] = list(d['Binaries'])
+            else:
+                meta['dyld_binaries'] += d['Binaries']
+        elif kind == 'images':
+            meta['images'] = plistlib.loads(payload)
+        elif kind == 'processes':
+            meta['processes'] = plistlib.loads(payload)
+        elif kind == 'log_events':
+            logs += plistlib.loads(payload)['Events']
+        elif kind == 'log_strings':
+            strings = {v: k for k, v in plistlib.loads(payload)['StringIndex'].items()}
+    return events, tp, pn, meta, logs, strings
+
+
+def do_v3_case(req):
+    import io
+    import plistlib
+    from pykdebugparser.kd_buf_parser import KdBufParser
+    from pykdebugparser.os_log_event import OsLogEvent
+    from spec import container as S
+    threads = [tuple(t) for t in req['threads']]
+    chunks = [[bytes.fromhex(r) for r in c] for c in req['chunks']]
+    blocks = [(k, bytes.fromhex(p)) for k, p in req['blocks']]
+    data = S.build_v3(threads, chunks, blocks, filler=bytes.fromhex(req.get('filler', '')), aligned=req.get('aligned', True),
+                      gap=bytes.fromhex(req.get('gap', '')), chunk_gaps=[bytes.fromhex(g) for g in req.get('chunk_gaps', [])] or None)
+    events, tp, pn, meta, logs, strings = _v3_expected(threads, chunks, blocks)
+    p = KdBufParser({99: 1}, {1: 'stale'})
+    try:
+        got = list(p.parse(_BudgetReader(data, 8 * len(data) + 200)))
+    except TimeoutError:
+        return {'violates': True, 'what': 'parsing a well-formed version-3 dump does not terminate (read budget of 8 reads per byte exhausted)'}
+    except BaseException as ex:  # noqa
+        return {'violates': True, 'what': 'parsing a well-formed version-3 dump raised %s: %s' % (type(ex).__name__, ex)}
+    gev = [e for e in got if not isinstance(e, OsLogEvent)]
+    glog = [e for e in got if isinstance(e, OsLogEvent)]
+    what = ''
+    if gev != events:
+        what = 'yielded %d events, the chunks hold %d (%s)' % (len(gev), len(events), 'order/content differs' if len(gev) == len(events) else 'count differs')
+    elif got[:len(gev)] != gev:
+        what = 'a log record was yielded before the last event'
+    elif len(glog) != len(logs):
+        what = 'yielded %d log records, the log blocks hold %d' % (len(glog), len(logs))
+    else:
+        for g, raw in zip(glog, logs):
+            if g.thread_identifier != raw['tid'] or g.composed_message != strings.get(raw['cm']):
+                what = 'log record decoded wrongly (tid/message)'
+        for raw in logs:
+            if raw.get('p') is not None and strings.get(raw['p']) and raw.get('tid'):
+                tp[raw['tid']] = raw.get('pid', 0)
+                pn[raw.get('pid', 0)] = strings[raw['p']]
+        if not what and (p.threads_pids != tp or p.pids_names != pn):
+            what = 'thread/process tables %r %r differ from the dump\'s %r %r' % (p.threads_pids, p.pids_names, tp, pn)
+        if not what and p.trace_codes != meta['trace_codes']:
+            what = 'embedded trace codes differ from the concatenation of their blocks'
+        if not what and p.kernel_extensions.get('Binaries') != meta['kernel_extensions']:
+            what = 'kernel extensions differ from the concatenation of their blocks'
+        if not what and meta['dyld_binaries'] is not None and p.dyld_modules.get('Binaries') != meta['dyld_binaries']:
+            what = 'dyld modules differ from the concatenation of their blocks'
+        if not what and (p.images != meta['images'] or p.processes != meta['processes']):
+            what = 'images/processes differ from their payload'
+    return {'violates': bool(what), 'what': what}
+
+
+def do_v3_blocks_search(req):
+    import random
+    import plistlib
+    rnd = random.Random(req.get('seed', 0))
+    budget = req.get('budget', 200)
+    tried = 0
+    strings = ['msg a', 'proc', 'msg c']
+    while tried < budget:
+        threads = [(rnd.choice([1, 2, 3]), rnd.choice([5, 6]), rnd.choice(['a', 'launchd'])) for _ in range(rnd.randint(0, 3))]
+        nrec = rnd.randint(0, 7)
+        recs = [_rec64(i) for i in range(nrec)]
+        k = rnd.randint(1, 3)
+        cuts = sorted(rnd.randint(0, nrec) for _ in range(k - 1))
+        chunks = [recs[a:b] for a, b in zip([0] + cuts, cuts + [nrec])]
+        blocks = []
+        for _ in range(rnd.randint(0, 5)):
+            kind = rnd.choice(['trace_codes', 'kernel_extensions', 'dyld_modules', 'images', 'processes', 'log_events', 'log_strings'])
+            if kind == 'trace_codes':
+                payload = ('0x%x\tNAME%d\n' % (rnd.randint(1, 99) * 4, rnd.randint(1, 9))).encode() * rnd.randint(1, 3)
+            elif kind in ('kernel_extensions', 'dyld_modules'):
+                payload = plistlib.dumps({'Binaries': [{'Name': 'b%d' % rnd.randint(1, 9)} for _ in range(rnd.randint(0, 2))], 'Other': 1}, fmt=plistlib.FMT_BINARY)
+            elif kind in ('images', 'processes'):
+                payload = plistlib.dumps({'x': rnd.randint(1, 9)}, fmt=plistlib.FMT_BINARY)
+            elif kind == 'log_events':
+                payload = plistlib.dumps({'Events': [_raw_log(rnd.randint(0, 5), rnd.random() < 0.7) for _ in range(rnd.randint(0, 2))]}, fmt=plistlib.FMT_BINARY)
+            else:
+                payload = plistlib.dumps({'StringIndex': {s: i for i, s in enumerate(strings)}}, fmt=plistlib.FMT_BINARY)
+            blocks.append((kind, payload))
+        # the string index must be known for logs to resolve: make sure one strings block is present when logs are
+        if any(b[0] == 'log_events' for b in blocks) and not any(b[0] == 'log_strings' for b in blocks):
+            blocks.append(('log_strings', plistlib.dumps({'StringIndex': {s: i for i, s in enumerate(strings)}}, fmt=plistlib.FMT_BINARY)))
+        tried += 1
+        req2 = {'kind': 'v3_case', 'threads': [list(t) for t in threads], 'chunks': [[r.hex() for r in c] for c in chunks],
+                'blocks': [[k_, p_.hex()] for k_, p_ in blocks], 'aligned': rnd.random() < 0.8,
+                'filler': rnd.choice([b'', bytes(5), b'stack', b'stackshot_out_f', b'sstackshot_out_', b'xx\x00\x1d']).hex(),
+                'gap': rnd.choice([b'', b'\x00', b'\x00\x1d\x00', b'\x00\x00\x1d']).hex(),
+                'chunk_gaps': [rnd.choice([b'', b'\x00', b'\x00\x1e\x00', b'\x00\x00\x1e', b'j\x00\x1e']).hex() for _ in range(3)]}
+        r = do_v3_case(req2)
+        if r['violates']:
+            r['request'] = req2
+            return {'tried': tried, 'bound': '<= 3 threads, <= 7 events in <= 3 chunks, <= 6 metadata/log blocks, both paddings', 'found': r}
+    return {'tried': tried, 'bound': '<= 3 threads, <= 7 events in <= 3 chunks, <= 6 metadata/log blocks, both paddings', 'found': None}
+
+
+class _BudgetReader:
+    def __init__(self, data, budget):
+        import io
+        self.b = io.BytesIO(data)
+        self.budget = budget
+
+    def read(self, n=-1):
+        self.budget -= 1
+        if self.budget < 0:
+            raise TimeoutError('read budget exhausted')
+        return self.b.read(n)
+
+    def readinto(self, buf):
+        self.budget -= 1
+        if self.budget < 0:
+            raise TimeoutError('read budget exhausted')
+        return self.b.readinto(buf)
+
+    def seek(self, *a):
+        return self.b.seek(*a)
+
+    def tell(self):
+        return self.b.tell()
+
+
+def do_truncation_case(req):
+    from pykdebugparser.kd_buf_parser import KdBufParser
+    from pykdebugparser.os_log_event import OsLogEvent
+    data = bytes.fromhex(req['data'])
+    cut = req['cut']
+    full = []
+    try:
+        for e in KdBufParser({}, {}).parse(_BudgetReader(data, 4 * len(data) + 100)):
+            full.append(e)
+    except BaseException:  # noqa
+        pass
+    got, err = [], None
+    try:
+        for e in KdBufParser({}, {}).parse(_BudgetReader(data[:cut], 4 * len(data) + 100)):
+            got.append(e)
+    except TimeoutError as ex:
+        return {'violates': True, 'what': 'parsing the dump cut at byte %d of %d does not stop: %s' % (cut, len(data), ex)}
+    except BaseException as ex:  # noqa
+        err = type(ex).__name__
+    ev_full = [e for e in full if not isinstance(e, OsLogEvent)]
+    ev_got = [e for e in got if not isinstance(e, OsLogEvent)]
+    if ev_got != ev_full[:len(ev_got)]:
+        return {'violates': True, 'what': 'events reported for the dump cut at byte %d are not a prefix of the full dump\'s' % cut}
+    return {'violates': False, 'error': err, 'events': len(ev_got)}
+
+
+def do_truncation_search(req):
+    import random
+    from spec import container as S
+    rnd = random.Random(req.get('seed', 0))
+    budget = req.get('budget', 40)
+    dumps = []
+    recs = [_rec64(i) for i in range(4)]
+    dumps.append(S.build_v2([(1, 5, 'proc'), (2, 6, 'x')], 8, recs))
+    dumps.append(S.build_v3([(1, 5, 'proc')], [recs[:2], recs[2:]], [('trace_codes', b'0x4 A\n')], filler=b'zz'))
+    tried = 0
+    for data in dumps:
+        cuts = list(range(0, len(data) + 1))
+        if len(cuts) > budget:
+            step = max(1, len(cuts) // budget)
+            cuts = sorted(set(cuts[::step] + cuts[-70:] + [rnd.randrange(len(data)) for _ in range(10)]))
+        for cut in cuts:
+            tried += 1
+            r = do_truncation_case({'data': data.hex(), 'cut': cut})
+            if r['violates']:
+                r['request'] = {'kind': 'truncation_case', 'data': data.hex(), 'cut': cut}
+                return {'tried': tried, 'bound': 'cut offsets of one small version-2 and one small version-3 dump', 'found': r}
+    return {'tried': tried, 'bound': 'cut offsets of one small version-2 and one small version-3 dump', 'found': None}
+
+
+HANDLERS.update({'v3_case': do_v3_case, 'v3_blocks_search': do_v3_blocks_search, 'truncation_case': do_truncation_case,
+                 'truncation_search': do_truncation_search})
